@@ -1239,6 +1239,8 @@ struct Conn {
     driven: bool,
     /// the peer group whose parameters the session was found to carry (dynamic neighbours)
     group: Option<String>,
+    group_epoch: u64,
+    tag: &'static str,
 }
 
 enum Adm {
@@ -1263,8 +1265,13 @@ struct World<'a> {
     cfg_hash: u64,
     statics: BTreeMap<IpAddr, NeighGen>,
     src: BTreeMap<IpAddr, &'static str>,
+    /// number of UpdatePeerGroup calls applied to a group / what a member or instance saw of it
+    group_epoch: BTreeMap<String, u64>,
+    member_epoch: BTreeMap<IpAddr, u64>,
     removed: Vec<NeighGen>,
     groups: Vec<GroupGen>,
+    /// the groups as first loaded (what UpdatePeerGroup started from)
+    groups0: Vec<GroupGen>,
     universe: Vec<IpAddr>,
     global: GlobalHandle,
     tables: TableHandle,
@@ -1433,8 +1440,11 @@ async fn build_world<'a>(
         cfg_text: text,
         statics: cfg.neighs.iter().map(|n| (n.addr, n.clone())).collect(),
         src,
+        group_epoch: BTreeMap::new(),
+        member_epoch: BTreeMap::new(),
         removed: Vec::new(),
         groups: cfg.groups.clone(),
+        groups0: cfg.groups.clone(),
         universe: cfg.universe.clone(),
         global,
         tables,
@@ -2014,6 +2024,8 @@ impl<'a> World<'a> {
             open_read: false,
             driven: false,
             group: None,
+            group_epoch: 0,
+            tag: "",
         });
         if skip_setup {
             // admission already violated; there is no configuration to compare with
@@ -2065,7 +2077,27 @@ impl<'a> World<'a> {
                 .group
                 .as_ref()
                 .and_then(|name| self.groups.iter().find(|g| &g.name == name));
+            if let Some(g) = g {
+                if self.member_epoch.get(&addr).copied().unwrap_or(0) != self.group_epoch.get(&g.name).copied().unwrap_or(0) {
+                    // the group was re-configured after this member took its values from it: whether
+                    // existing members follow is not said
+                    self.rep.count("unjudged:setup:member-of-a-group-updated-later");
+                    return;
+                }
+            }
             vec![expectation(&self.confed, Some(n), g, &addr)]
+        } else if let Some((gname, gep)) = self
+            .live(&addr)
+            .into_iter()
+            .filter(|i| *i != id && self.conns[*i].dynamic)
+            .find_map(|i| self.conns[i].group.clone().map(|g| (g, self.conns[i].group_epoch)))
+            .filter(|(g, ep)| self.group_epoch.get(g).copied().unwrap_or(0) != *ep)
+        {
+            // it stays part of that older instance for whoever joins next
+            self.conns[id].group = Some(gname);
+            self.conns[id].group_epoch = gep;
+            self.rep.count("unjudged:setup:instance-of-a-group-updated-later");
+            return;
         } else if let Some(gname) = self
             .live(&addr)
             .into_iter()
@@ -2165,11 +2197,80 @@ impl<'a> World<'a> {
                 "overlap:group-of-shorter-prefix"
             });
         }
-        let tag = if best.kind == "dynamic" {
+        // a group that went through UpdatePeerGroup is involved (as the group of the neighbour or as
+        // one of several overlapping candidates): that call is then part of the finding's identity
+        let updated_group = cands.iter().any(|c| c.group.as_ref().is_some_and(|g| self.group_epoch.get(g).copied().unwrap_or(0) > 0));
+        let tag = if self.src.get(&addr).copied() == Some("update") && best.kind != "dynamic" {
+            "update"
+        } else if updated_group {
+            "update-group"
+        } else if best.kind == "dynamic" {
             self.loader_name()
         } else {
             self.src.get(&addr).copied().unwrap_or("?")
         };
+        // ---- one root cause, one signature: does the session carry exactly what a known
+        // omission of the re-configuration handlers would give?
+        let mut folded: Option<(String, String)> = None;
+        // differences that remain next to a folded finding (an independent local-AS problem)
+        let mut rest: Vec<(String, String)> = Vec::new();
+        let only_as = |d: &Vec<(String, String)>| d.iter().all(|(f, _)| f.starts_with("local-as/") || f.starts_with("open-as/"));
+        if !diffs.is_empty() && tag == "update" {
+            if let Some(n) = self.statics.get(&addr) {
+                let alt_d = diff(&expectation(&self.confed, Some(n), None, &addr), &obs);
+                // (whatever still differs without the group is reported on its own)
+                if n.group.is_some() && alt_d.len() < diffs.len() {
+                    rest = alt_d;
+                    folded = Some((
+                        "C16/setup/group-not-inherited/update".into(),
+                        "after UpdatePeer the neighbour carries exactly its own fields and nothing of its peer group any more".into(),
+                    ));
+                }
+            }
+        }
+        if !diffs.is_empty() && tag == "update-group" {
+            let alt_group = |g: &GroupGen| -> GroupGen {
+                let mut a = g.clone();
+                if let Some(g0) = self.groups0.iter().find(|x| x.name == g.name) {
+                    a.c.fams = g0.c.fams.clone();
+                    a.c.gr = g0.c.gr;
+                }
+                a
+            };
+            let alts: Vec<Expect> = if let Some(n) = self.statics.get(&addr) {
+                n.group
+                    .as_ref()
+                    .and_then(|name| self.groups.iter().find(|g| &g.name == name))
+                    .map(|g| vec![expectation(&self.confed, Some(n), Some(&alt_group(g)), &addr)])
+                    .unwrap_or_default()
+            } else {
+                cands
+                    .iter()
+                    .filter_map(|c| c.group.as_ref())
+                    .filter_map(|name| self.groups.iter().find(|g| &g.name == name))
+                    .map(|g| expectation(&self.confed, None, Some(&alt_group(g)), &addr))
+                    .collect()
+            };
+            let alt_ds: Vec<Vec<(String, String)>> = alts.iter().map(|a| diff(a, &obs)).filter(|d| only_as(d) && d.len() < diffs.len()).collect();
+            if let Some(d) = alt_ds.into_iter().min_by_key(|d| d.len()) {
+                rest = d;
+                folded = Some((
+                    "C16/setup/group-families-and-capabilities-not-updated/update-group".into(),
+                    "after UpdatePeerGroup a new session of the group still carries the group's previous families / add-path / GR / LLGR".into(),
+                ));
+            }
+        }
+        if let Some((sig, what)) = &folded {
+            let w = self.witness(vec![
+                ("address", Json::s(addr.to_string())),
+                ("role", Json::s(role_name(role))),
+                ("all_differences", Json::strs(diffs.iter().map(|d| d.1.clone()))),
+                ("expected", Json::s(format!("{:x?}", best))),
+                ("observed", Json::s(format!("{:x?}", obs))),
+            ]);
+            self.rep.violation(sig, what, w);
+        }
+        let diffs: Vec<(String, String)> = if folded.is_some() { rest } else { diffs };
         for (field, detail) in &diffs {
             let w = self.witness(vec![
                 ("address", Json::s(addr.to_string())),
@@ -2188,7 +2289,7 @@ impl<'a> World<'a> {
                 || field.starts_with("role/")
                 || field.starts_with("open-as/")
             {
-                format!("C16/setup/{}", field)
+                if tag.starts_with("update") { format!("C16/setup/{}/{}", field, tag) } else { format!("C16/setup/{}", field) }
             } else if field == "hold-time" {
                 format!("C16/setup/{}/{}/{}", field, from(best.hold_from_group), tag)
             } else if [
@@ -2218,12 +2319,15 @@ impl<'a> World<'a> {
             ]);
             self.rep.sample(w);
         }
-        self.conns[id].peer_as = best.peer_as;
+        // (a folded finding: drive the session with what the daemon actually expects)
+        self.conns[id].peer_as = if folded.is_some() { obs.expected_as } else { best.peer_as };
         self.conns[id].group = best.group.clone();
+        self.conns[id].tag = tag;
+        self.conns[id].group_epoch = best.group.as_ref().and_then(|g| self.group_epoch.get(g).copied()).unwrap_or(0);
         // ---- drive the OPEN exchange from the client side
         let drive = match drive {
             Drive::Establish if obs.open_hold < 30 => Drive::Silent,
-            Drive::BadAs if best.peer_as == 0 => Drive::Silent,
+            Drive::BadAs if self.conns[id].peer_as == 0 => Drive::Silent,
             d => d,
         };
         if drive != Drive::Silent {
@@ -2303,11 +2407,12 @@ impl<'a> World<'a> {
                         ("configured_as", Json::Int(want_as as i128)),
                         ("sent_as", Json::Int(my_as as i128)),
                     ]);
-                    self.rep.violation(
-                        "C16/setup/expected-as/other-as-accepted",
-                        "an OPEN from an AS other than the configured one was acknowledged",
-                        w,
-                    );
+                    let sig = if self.conns[id].tag.starts_with("update") {
+                        format!("C16/setup/expected-as/other-as-accepted/{}", self.conns[id].tag)
+                    } else {
+                        "C16/setup/expected-as/other-as-accepted".to_string()
+                    };
+                    self.rep.violation(&sig, "an OPEN from an AS other than the configured one was acknowledged", w);
                 } else {
                     self.rep.count("drive:open-acknowledged");
                 }
@@ -2523,6 +2628,8 @@ impl<'a> World<'a> {
         match r {
             Ok(_) => {
                 self.src.insert(n.addr, "grpc");
+                let ep = n.group.as_ref().and_then(|g| self.group_epoch.get(g).copied()).unwrap_or(0);
+                self.member_epoch.insert(n.addr, ep);
                 self.statics.insert(n.addr, n);
             }
             Err(e) => {
@@ -2530,6 +2637,133 @@ impl<'a> World<'a> {
                 self.log(format!("  add refused: {}", e.message()));
                 // an entry (e.g. an instantiated dynamic neighbour) may legitimately be in the way
             }
+        }
+    }
+
+    /// UpdatePeer: re-configure an existing neighbour, then look at the session that exists afterwards
+    async fn op_update(&mut self, new: NeighGen, fields: Vec<&'static str>, rng: &mut Rng) {
+        let addr = new.addr;
+        let Some(old) = self.statics.get(&addr).cloned() else { return };
+        let before: Vec<usize> = self.live(&addr);
+        self.log(format!("update neighbour {} fields {:?} -> {:?}", addr, fields, new));
+        self.rep.count("op:update");
+        self.rep.count(if before.is_empty() { "update:while-idle" } else { "update:while-connected" });
+        let r = self
+            .svc
+            .update_peer(tonic::Request::new(api::UpdatePeerRequest { peer: Some(neigh_api(&new)), do_soft_reset_in: false }))
+            .await;
+        if let Err(e) = r {
+            self.rep.count("update:refused");
+            for f in &fields {
+                self.rep.count(&format!("update:refused:{}", f));
+            }
+            self.log(format!("  update refused: {}", e.message()));
+            return;
+        }
+        for f in &fields {
+            self.rep.count(&format!("update:field:{}", f));
+        }
+        self.rep.count(if fields.len() > 1 { "update:several-fields" } else { "update:one-field" });
+        // ---- administrative state: decided from the peer table right away
+        let actual_down = self.global.read().await.peers.get(&addr).map(|p| p.admin_down);
+        let mut model = new.clone();
+        if let Some(actual) = actual_down {
+            if new.admin_down != old.admin_down {
+                self.rep.eval();
+                self.rep.count("update:admin-state-judged");
+                if actual != new.admin_down {
+                    let w = self.witness(vec![("address", Json::s(addr.to_string())), ("configured_admin_down", Json::Bool(new.admin_down)), ("actual_admin_down", Json::Bool(actual))]);
+                    self.rep.violation(
+                        "C16/setup/admin-state/update",
+                        "UpdatePeer returned successfully but the neighbour's administrative state is not the configured one",
+                        w,
+                    );
+                }
+            }
+            // later admission judgements follow what the daemon holds (one root cause, one signature)
+            model.admin_down = actual;
+        }
+        self.src.insert(addr, "update");
+        let ep = model.group.as_ref().and_then(|g| self.group_epoch.get(g).copied()).unwrap_or(0);
+        self.member_epoch.insert(addr, ep);
+        self.statics.insert(addr, model.clone());
+        // ---- sessions that existed: told to shut down (the handler's own decision) or kept
+        for i in before {
+            if self.aborted {
+                return;
+            }
+            let role = self.conns[i].role;
+            let told = {
+                let a = self.conns[i].arb.lock().unwrap();
+                match role {
+                    Role::Active => a.active_close_tx.is_none(),
+                    Role::Passive => a.passive_close_tx.is_none(),
+                }
+            };
+            if told {
+                self.rep.count("update:session-torn-down");
+                if self.await_done(i).await {
+                    self.check_cleanup(addr, i).await;
+                }
+            } else {
+                // the statement does not say which changes must bounce a running session
+                self.rep.count("update:session-kept");
+            }
+        }
+        if self.aborted || model.admin_down {
+            return;
+        }
+        // ---- the first session after the update carries the new configuration
+        let live = self.live(&addr);
+        let mut role = if rng.chance(7, 10) { Role::Passive } else { Role::Active };
+        if live.iter().any(|i| self.conns[*i].role == role) {
+            let other = if role == Role::Passive { Role::Active } else { Role::Passive };
+            if live.iter().any(|i| self.conns[*i].role == other) {
+                let i = *live.iter().find(|i| self.conns[**i].role == role).unwrap();
+                self.op_disconnect(i).await;
+            } else {
+                role = other;
+            }
+        }
+        if self.aborted {
+            return;
+        }
+        self.rep.count("update:probe-session");
+        let drive = if rng.chance(1, 3) { Drive::Establish } else { Drive::Silent };
+        self.op_connect(addr, role, drive, None, true).await;
+    }
+
+    /// UpdatePeerGroup, then a new dynamic neighbour of that group
+    async fn op_update_group(&mut self, gi: usize, c: Common, fields: Vec<&'static str>, rng: &mut Rng) {
+        let mut g = self.groups[gi].clone();
+        g.c = c;
+        self.log(format!("update group {} fields {:?} -> {:?}", g.name, fields, g.c));
+        self.rep.count("op:update-group");
+        let r = self
+            .svc
+            .update_peer_group(tonic::Request::new(api::UpdatePeerGroupRequest { peer_group: Some(group_api(&g)), do_soft_reset_in: false }))
+            .await;
+        if let Err(e) = r {
+            self.rep.count("update-group:refused");
+            self.log(format!("  update refused: {}", e.message()));
+            return;
+        }
+        for f in &fields {
+            self.rep.count(&format!("update-group:field:{}", f));
+        }
+        *self.group_epoch.entry(g.name.clone()).or_insert(0) += 1;
+        self.groups[gi] = g;
+        // a fresh dynamic neighbour of this group (an address inside one of its prefixes with nothing going on)
+        let cand: Vec<IpAddr> = self
+            .universe
+            .iter()
+            .copied()
+            .filter(|a| !self.statics.contains_key(a) && self.live(a).is_empty() && self.groups[gi].prefixes.iter().any(|p| ref_contains(p, a)))
+            .collect();
+        if let Some(a) = cand.first().copied() {
+            self.rep.count("update-group:probe-session");
+            let role = if rng.chance(7, 10) { Role::Passive } else { Role::Active };
+            self.op_connect(a, role, Drive::Silent, None, true).await;
         }
     }
 
@@ -2621,6 +2855,146 @@ impl<'a> World<'a> {
     }
 }
 
+/// change one field (mostly) or several of a neighbour's / group's common part
+fn mutate_common(rng: &mut Rng, c: &mut Common, for_group: bool, v6: bool, confed: bool, fields: &mut Vec<&'static str>) {
+    let n = if rng.chance(7, 10) { 1 } else { rng.range(2, 4) };
+    for _ in 0..n {
+        match rng.below(13) {
+            0 | 1 => {
+                let mut h = Some(*rng.pick(&[6u32, 21, 60, 150, 900, 40000]));
+                if rng.chance(1, 6) {
+                    h = None;
+                }
+                if h != c.hold {
+                    c.hold = h;
+                    fields.push("hold-time");
+                }
+            }
+            2 => {
+                let a = *rng.pick(&[65002u32, 65001, 65003, 65100, 4_200_000_001]);
+                if a != c.peer_as {
+                    c.peer_as = a;
+                    fields.push("peer-as");
+                }
+            }
+            3 => {
+                if !confed {
+                    c.local_as = if c.local_as == 0 { 65050 } else { 0 };
+                    fields.push("local-as");
+                }
+            }
+            4 => {
+                c.passive = !c.passive;
+                fields.push("passive");
+            }
+            5 => {
+                c.fams = if rng.chance(1, 5) { vec![] } else { gen_fams(rng, v6, !for_group) };
+                c.gr = None;
+                fields.push("families");
+            }
+            6 | 11 | 12 => {
+                if !c.fams.is_empty() {
+                    let k = rng.usize(c.fams.len());
+                    if rng.chance(1, 3) {
+                        c.fams[k].rx = !c.fams[k].rx;
+                        fields.push("addpath-receive");
+                    } else {
+                        // a different non-zero value keeps the capability the same
+                        c.fams[k].send_max = match c.fams[k].send_max {
+                            0 => 4,
+                            4 => 16,
+                            _ => if rng.bool() { 4 } else { 0 },
+                        };
+                        fields.push("addpath-send-max");
+                    }
+                }
+            }
+            7 => {
+                if !c.fams.is_empty() {
+                    if c.gr.is_some() && rng.bool() {
+                        c.gr = None;
+                        for f in c.fams.iter_mut() {
+                            f.gr = false;
+                        }
+                    } else {
+                        c.gr = Some((*rng.pick(&[7u16, 333, 2000]), rng.bool()));
+                        for f in c.fams.iter_mut() {
+                            f.gr = rng.bool();
+                        }
+                        let k = rng.usize(c.fams.len());
+                        c.fams[k].gr = true;
+                    }
+                    fields.push("graceful-restart");
+                }
+            }
+            8 => {
+                if !c.fams.is_empty() {
+                    let k = rng.usize(c.fams.len());
+                    c.fams[k].llgr = match c.fams[k].llgr {
+                        None => Some(4321),
+                        Some(4321) => Some(99),
+                        Some(_) => None,
+                    };
+                    fields.push("llgr");
+                }
+            }
+            9 => {
+                if !for_group {
+                    for f in c.fams.iter_mut() {
+                        if f.fam == Family::IPV4 || f.fam == Family::IPV6 {
+                            f.limit = match f.limit {
+                                None => Some(55),
+                                Some(55) => Some(77_777),
+                                Some(_) => None,
+                            };
+                            if !fields.contains(&"prefix-limits") {
+                                fields.push("prefix-limits");
+                            }
+                        }
+                    }
+                }
+            }
+            _ => {
+                // the handler documents these as not changeable through an update
+                if rng.bool() {
+                    c.rs_client = !c.rs_client;
+                    fields.push("route-server-client");
+                } else {
+                    c.rr_client = !c.rr_client;
+                    if !c.rr_client {
+                        c.cluster_id = None;
+                    }
+                    fields.push("route-reflector-client");
+                }
+            }
+        }
+    }
+}
+
+fn gen_update(rng: &mut Rng, old: &NeighGen, confed: bool) -> (NeighGen, Vec<&'static str>) {
+    let mut n = old.clone();
+    let mut fields: Vec<&'static str> = Vec::new();
+    match rng.below(8) {
+        0 => {
+            n.admin_down = !n.admin_down;
+            fields.push("admin-state");
+        }
+        1 => {
+            n.export = match &n.export {
+                None => Some((rng.bool(), vec![POLICIES[rng.usize(3)].to_string()])),
+                Some((rej, names)) if names.len() < 2 => Some((!*rej, vec![POLICIES[0].to_string(), POLICIES[2].to_string()])),
+                Some(_) => None,
+            };
+            fields.push("export-policy");
+        }
+        _ => mutate_common(rng, &mut n.c, false, n.addr.is_ipv6(), confed, &mut fields),
+    }
+    if n.group.is_none() && n.c.peer_as == 0 {
+        n.c.peer_as = 65002;
+    }
+    (n, fields)
+}
+
 // ------------------------------------------------------------------ one configuration + one history
 
 async fn run_scenario(
@@ -2657,7 +3031,7 @@ async fn run_scenario(
             drop(s);
             w.rep.count("harness:own-active-connect-succeeded");
         }
-        let k = rng.below(100);
+        let k = rng.below(114);
         let live: Vec<usize> = (0..w.conns.len()).filter(|i| !w.conns[*i].done).collect();
         let statics: Vec<IpAddr> = w.statics.keys().copied().collect();
         if k < 52 || first.len() > n_ops.saturating_sub(step) {
@@ -2770,6 +3144,25 @@ async fn run_scenario(
                 let i = *rng.pick(&cand);
                 let (a, r) = (w.conns[i].addr, w.conns[i].role);
                 w.op_replace_race(a, r).await;
+            }
+        } else if k >= 100 && k < 110 {
+            if !statics.is_empty() {
+                let a = *rng.pick(&statics);
+                let old = w.statics.get(&a).cloned().unwrap();
+                let (new, fields) = gen_update(rng, &old, w.confed.is_some());
+                if !fields.is_empty() {
+                    w.op_update(new, fields, rng).await;
+                }
+            }
+        } else if k >= 110 {
+            if !w.groups.is_empty() {
+                let gi = rng.usize(w.groups.len());
+                let mut c = w.groups[gi].c.clone();
+                let mut fields = Vec::new();
+                mutate_common(rng, &mut c, true, false, w.confed.is_some(), &mut fields);
+                if !fields.is_empty() {
+                    w.op_update_group(gi, c, fields, rng).await;
+                }
             }
         } else if !w.groups.is_empty() {
             let gi = rng.usize(w.groups.len());
